@@ -590,6 +590,22 @@ func (g *gen) behC08() M {
 			}
 		}
 		steps = append(steps, send(M{"t": "B", "portal": portal, "stmt": name, "pfmt": g.codeList(np), "params": params, "rfmt": g.codeList(nc)}))
+		if g.chance(0.3) {
+			// the same portal bound again to the same statement (no Parse, no Close in between): the later Bind
+			// is the one that counts - its parameters and its result formats
+			if g.chance(0.5) {
+				steps = append(steps, send(M{"t": "D", "kind": "P", "name": portal}))
+			}
+			again := []any{}
+			for i := 0; i < np; i++ {
+				if g.chance(0.2) {
+					again = append(again, M{"null": true})
+				} else {
+					again = append(again, M{"null": false, "cls": "short"})
+				}
+			}
+			steps = append(steps, send(M{"t": "B", "portal": portal, "stmt": name, "pfmt": g.codeList(np), "params": again, "rfmt": g.codeList(nc)}))
+		}
 		other := ""
 		if g.chance(0.5) {
 			// a second portal on the same statement, bound afterwards with other parameters and result
